@@ -60,6 +60,12 @@ def build_all():
     for b in all_bins():
         if b.startswith("f0_"):
             _sh(["cargo", "build", "--offline", "--quiet", "--no-default-features", "--bin", b], PROBES)
+    # warm the nightly target directory used by the expansion comparison of C20
+    os.makedirs(os.path.join(ROOT, "work"), exist_ok=True)
+    try:
+        expand_twice(["p_c03_sigs"], os.path.join(ROOT, "work"))
+    except Exception:
+        pass
     return rc, log
 
 
